@@ -467,6 +467,15 @@ def check(ctx):
                 else:
                     ctx.violation('R7-name-binding', sh['template'].func, '%s loop block: %s' % (d.kind, stmt_text(sh['assign'])), '"name" is bound to tuple slot %s; the field name is slot %d' % (sh['name_pos'], layout['name']), sh['template'].lineno)
     check_packet_unpack(ctx, 'R7-packet-unpack')
+    # Round 6: the field named by the innermost stack entry is the field whose value failed: every
+    # member of a bit run merges its *own* value in its own pack call (C07-d), so a value of the
+    # wrong type fails there and not while a later member assembles the run
+    from .c07 import check_pack as _bits_pack
+    _bits_pack(ctx, ctx.repo.cls('Bits'))
+    # ... and the generated handlers can name PacketError (and everything else they use) in every
+    # generated variant of the module: an undefined name there is a NameError instead (C15-E)
+    from .c15 import check_templates_closed
+    check_templates_closed(ctx, ctx.repo)
     check_packet_pack(ctx)
     check_typed_chunks(ctx)
     # (h) a field that cannot be decoded fails inside its own call (strict decode, C04 rule R4):
